@@ -115,7 +115,6 @@ pub open spec fn load_field_effect(t: St, tmp: Temporary, mb: Register, off: int
     }
 }
 
-pub open spec fn is_ext(b: ContextBinding) -> bool { b.chi == Chirality::Ext }
 
 pub open spec fn store_value_effect(t: St, ext: bool, fst: Temporary, snd: Temporary, mb: Register, k: int) -> St {
     let t1 = store_field_effect(t, snd, mb, 16 + 16 * k + 8);
